@@ -25,10 +25,11 @@ if os.environ.get('VERIF_URLNORM_FIX'):          # e.g. "FixPctCase,FixIdnaFirst
             FIX[_k] = 'TRUE'
 
 C10_CLAUSES = {1: 'IsAscii', 2: 'NoWsC0', 4: 'LowerSchemeHost', 8: 'DefaultPortOmitted', 16: 'NoDotOrEmptySegments',
-               32: 'EscapesUpper', 64: 'Idempotent', 128: 'RoundTrip', 256: 'VariantsAgree'}
+               32: 'EscapesUpper', 64: 'Idempotent', 128: 'RoundTrip', 256: 'VariantsAgree',
+               512: 'IdempotentWhateverTheEncoding'}
 C11_CLAUSES = {1: 'ParseTotal', 2: 'AccessorsTotal', 4: 'LogNeverRaises', 8: 'JoinOnlyValueError', 16: 'Terminates'}
 
-C10_INVS = ['TypeOK', 'MTotal', 'MIsAscii', 'MNoWsC0', 'MLower', 'MPort', 'MSegments', 'MEscapes', 'MIdempotent',
+C10_INVS = ['TypeOK', 'MTotal', 'MIsAscii', 'MNoWsC0', 'MLower', 'MPort', 'MSegments', 'MEscapes', 'MIdempotent', 'MIdempotentAnyEnc',
             'MRoundTrip', 'MVariants']
 C11_INVS = ['TypeOK', 'MTotal']
 
@@ -116,7 +117,7 @@ def execute(fams, full, procs=6):
 
 
 # ------------------------------------------------------------------ TLC on the real outputs
-MON_FIELDS = ['ref', 'oc', 'uoc', 'net', 'url', 'oc2', 'url2', 'acc', 'log', 'join', 'sch', 'hn', 'port', 'path',
+MON_FIELDS = ['ref', 'oc', 'uoc', 'net', 'url', 'oc2', 'url2', 'oc3', 'url3', 'acc', 'log', 'join', 'sch', 'hn', 'port', 'path',
               'query', 'sch2', 'hn2', 'port2', 'path2', 'query2']
 TRACE_FIELDS = ['in', 'enc', 'oc', 'uoc', 'net', 'url', 'sch', 'hn', 'port', 'path', 'query', 'frag', 'user', 'pass']
 
@@ -256,6 +257,11 @@ def signature_c10(clause, rec, base, enc):
             sig['differs'] = (d or ['?'])[0]               # first differing component
             if sig['differs'] == 'host':
                 sig['host'] = '%s->%s' % (host_shape(parts['host']), host_shape(split_url(_s(rec['url2']))['host']))
+    elif clause == 'IdempotentWhateverTheEncoding':
+        if rec['oc3'] != 'value':
+            sig['second_pass'] = rec['oc3']
+        else:
+            sig['differs'] = (differing(url, _s(rec['url3'])) or ['?'])[0]
     elif clause == 'VariantsAgree':
         vk = rec['vk']
         sig['variant'] = 'escape-case' if vk.startswith('escape-') else vk
